@@ -8,7 +8,8 @@ Mirror of the TCP signature extractor of huginn-net-tcp *as it is* (including it
 * `ip_options.rs`     `IpOptions::calculate_ipv4_length / calculate_ipv6_length`
 * `mtu.rs`            `extract_from_ipv4 / extract_from_ipv6`
 * `tcp_process.rs`    `from_client`, `from_server`, `is_packet_from_client`, `is_valid`,
-                      `process_tcp_ipv4 / process_tcp_ipv6`, `visit_tcp` (incl. the option walk)
+                      `process_tcp_ipv4 / process_tcp_ipv6`, `visit_tcp` (incl. the option walk),
+                      `options_malformed`
 * `process.rs`        the output glue of `process_ipv4_packet / process_ipv6_packet` (matcher = `None`)
 * `signature_matcher.rs` `matching_by_mtu`
 
@@ -280,6 +281,52 @@ def walkAux (ty : Nat) : Nat → Bytes → WalkSt → WalkSt
 
 def walk (ty : Nat) (buf : Bytes) (st : WalkSt) : WalkSt := walkAux ty buf.length buf st
 
+/-! ### tcp_process.rs: `options_malformed` (the `bad` quirk) -/
+
+/-- the size table of `options_malformed`: the length byte a fixed-format option must carry
+(regenerated from the `match number` arms), any other kind needs `len >= optionMinLen` -/
+def optSizeOk (kind len : Nat) : Bool :=
+  match TcpConst.optionSizes.find? (fun e => e.1 == kind) with
+  | some e => e.2.contains len
+  | none => decide (len ≥ TcpConst.optionMinLen)
+
+/-- The loop of `options_malformed` with explicit fuel: `EOL => return false`, `NOP => buf = rest`,
+otherwise the length byte must exist (`rest.first()`), pass the size table and stay inside the buffer
+(`buf.get(len..)`). Kinds 0 / 1 are pnet's `TcpOptionNumbers::EOL / NOP`. -/
+def optionsMalformedAux : Nat → Bytes → Bool
+  | 0, _ => false
+  | _ + 1, [] => false
+  | n + 1, k :: rest =>
+    if k = 0 then false
+    else if k = 1 then optionsMalformedAux n rest
+    else match rest with
+      | [] => true
+      | len :: _ =>
+        if optSizeOk k len = true ∧ len ≤ rest.length + 1 then optionsMalformedAux n ((k :: rest).drop len)
+        else true
+
+/-- `options_malformed(tcp.get_options_raw())` (every iteration consumes at least one byte, so the
+fuel `buf.length` suffices: `Lemmas.TcpWalk.optionsMalformedAux_fuel`) -/
+def optionsMalformed (buf : Bytes) : Bool := optionsMalformedAux buf.length buf
+
+/-- which exit of `options_malformed` is taken (coverage tags only): no length byte, length byte
+below 2, wrong size of the fixed-format option of kind `k`, option running past the area -/
+def malformedKindAux : Nat → Bytes → Option String
+  | 0, _ => none
+  | _ + 1, [] => none
+  | n + 1, k :: rest =>
+    if k = 0 then none
+    else if k = 1 then malformedKindAux n rest
+    else match rest with
+      | [] => some "nolen"
+      | len :: _ =>
+        if len < 2 then some "short"
+        else if !optSizeOk k len then some s!"size{k}"
+        else if len > rest.length + 1 then some "past"
+        else malformedKindAux n ((k :: rest).drop len)
+
+def malformedKind (buf : Bytes) : Option String := malformedKindAux buf.length buf
+
 /-! ### tcp_process.rs: the header quirks -/
 
 def ipQuirksV4 (ip : IpHdr) : List Quirk :=
@@ -329,6 +376,8 @@ def visitTcp (t : TcpHdr) (ver : IpVersion) (ittl : Ttl) (ipHdrLen olen : Nat) (
   if !isValid fl ty then .error .flags
   else
     let st := walk ty t.opts { quirks := q0 ++ tcpQuirks q0 t }
+    -- after the loop: `if options_malformed(tcp.get_options_raw()) { quirks.push(Quirk::OptBad) }`
+    let quirks := st.quirks ++ (if optionsMalformed t.opts then [.optBad] else [])
     let mtu : Option Nat := match st.mss, ver with
       | some m, .v4 => extractMtu4 fl ipHdrLen t.doff m
       | some m, .v6 => extractMtu6 fl ipHdrLen t.doff m
@@ -336,7 +385,7 @@ def visitTcp (t : TcpHdr) (ver : IpVersion) (ittl : Ttl) (ipHdrLen olen : Nat) (
     let wsize := detectWin t.window (st.mss.getD 0) 0 (st.olayout.contains .ts) ver
     let sig : TcpSig :=
       { version := ver, ittl := ittl, olen := olen, mss := st.mss, wsize := wsize, wscale := st.wscale,
-        olayout := st.olayout, quirks := st.quirks,
+        olayout := st.olayout, quirks := quirks,
         pclass := if t.payLen = 0 then .zero else .nonZero }
     let fc := fromClient fl
     .ok { syn := if fc then some sig else none,
@@ -362,8 +411,8 @@ def quirkLetter : Quirk → Char
   | .seqNumZero => 's' | .ackNumNonZero => 'A' | .ackNumZero => 'a' | .nonZeroURG => 'u' | .urg => 'U'
   | .push => 'p' | .ownTimestampZero => 't' | .peerTimestampNonZero => 'T' | .trailingNonZero => 'x'
   | .excessiveWindowScaling => 'w' | .optBad => 'b'
-/-- Arm of `process` taken, for coverage: version, role, window arm, option shape, and the sets of
-layout tokens (`L=`) and quirks (`Q=`) emitted. -/
+/-- Arm of `process` taken, for coverage: version, role, window arm, option shape, the exit of
+`options_malformed` (`:bad-…`), and the sets of layout tokens (`L=`) and quirks (`Q=`) emitted. -/
 def processTag (f : Fields) : String :=
   let v := if f.ip.v6 then "v6" else "v4"
   match process f with
@@ -391,9 +440,10 @@ def processTag (f : Fields) : String :=
           let c := "enmwkatu".toList.getD focus 'e'
           s!"|L{if (s.olayout.map optLetter).contains c then "+" else "-"}{c}"
         else
-          let c := "dizeofsAauUptTxw".toList.getD (focus - 8) 'd'
+          let c := "dizeofsAauUptTxwb".toList.getD (focus - 8) 'd'
           s!"|Q{if (s.quirks.map quirkLetter).contains c then "+" else "-"}{c}"
-    s!"{v}:{role}:{w}:{o}{if r.mtu.isSome then ":mtu" else ""}{suffix}"
+    let bad := match malformedKind f.tcp.opts with | some k => ":bad-" ++ k | none => ""
+    s!"{v}:{role}:{w}:{o}{if r.mtu.isSome then ":mtu" else ""}{bad}{suffix}"
 
 /-! ### frame decoding (pnet accessors) -/
 
